@@ -130,13 +130,19 @@ fn parse_msg(s: &str) -> Result<Message, String> {
     #[allow(unused_mut)]
     let mut m = from_val::<Message>(&v).map_err(|e| e.0)?;
     // the free-text field is built the way a user of the public API builds it, with
-    // ArrayString::from(&str), not through the serde visitor that from_val goes through
+    // ArrayString::from(&str) or collect(), not through the serde visitor that from_val goes through
     if let Message::Msg1029(ref mut t) = m {
         if let Val::Variant(_, Some(body)) = &v {
             if let Val::Struct(fields) = body.as_ref() {
                 if let Some(last) = fields.last() {
                     if let Some(text) = cps_to_string(last) {
-                        t.text_str = rtcm_rs::util::ArrayString::from(text.as_str());
+                        // both public constructors, chosen by the parity of the character count so that a run is
+                        // reproducible: From<&str> (which the decoder uses too) and FromIterator<char> (try_push)
+                        t.text_str = if text.chars().count() % 2 == 0 {
+                            rtcm_rs::util::ArrayString::from(text.as_str())
+                        } else {
+                            text.chars().collect()
+                        };
                     }
                 }
             }
